@@ -76,7 +76,7 @@ BOUNDS = {
     "thorough": "same (exhausted at quick).",
 }
 OUTSIDE = "rendering to image formats (graphviz binaries); fonts, colours other than the highlight; other templates"
-OBLIGATIONS = ["class-graph", "instance-graph", "current-state-falsy-value", "parallel-edges-differing-in-guard", "internal-in-label", "final-double-border"]
+OBLIGATIONS = ["generator-object-reused", "class-graph", "instance-graph", "current-state-falsy-value", "parallel-edges-differing-in-guard", "internal-in-label", "final-double-border"]
 ASSUMPTIONS = [
     "edge labels are parsed as '<events separated by blanks>' optionally followed by a line '[guard, !unless-guard, ...]' (the library's documented rendering)",
     "the highlight is recognised by a fill colour different from the other nodes' and/or a pen width attribute",
@@ -123,7 +123,22 @@ def run(ctx, params):
         v = next(s.get("value") for s in am["states"] if s["id"] == cur)
         if v is not None and not v:
             ctx.cover("current-state-falsy-value")
-    graph = DotGraphMachine(subject).get_graph() if params["target"] == "class" or ctx.choose(2, "api") else subject._graph()
+    api = 0 if params["target"] == "class" else ctx.choose(3, "api")
+    if api == 2:
+        # one DotGraphMachine object asked before and after the instance moved
+        dg = DotGraphMachine(subject)
+        with ctx.notracing():
+            keep = subject.current_state_value
+            subject.current_state_value = next(
+                (s.get("value") if s.get("value") is not None else s["id"]) for s in am["states"] if s["id"] != cur
+            )
+        dg.get_graph()
+        with ctx.notracing():
+            subject.current_state_value = keep
+        graph = dg.get_graph()
+        ctx.cover("generator-object-reused")
+    else:
+        graph = DotGraphMachine(subject).get_graph() if api == 0 else subject._graph()
     tag = f"{params['template']}:{params['target']}"
     nodes = {strip(n.get_name()): n for n in graph.get_nodes() if strip(n.get_name()) not in ("node", "edge", "graph")}
     edges = graph.get_edges()
